@@ -341,7 +341,8 @@ _EXT_VALUES = {
     'ext:openpyxl.utils.datetime.CALENDAR_MAC_1904': _dt.datetime(1904, 1, 1), 'ext:openpyxl.utils.datetime.MAC_EPOCH': _dt.datetime(1904, 1, 1),
 }
 COVERAGE = None     # {'lines': {module: {lineno}}, 'branches': {(module, lineno, col): {True, False}}} when a coverage run asks for it
-_PURE_LIBS = {'re': _re, 'datetime': _dt, 'math': _math, 'decimal': _decimal}
+import unicodedata as _unicodedata  # noqa: E402
+_PURE_LIBS = {'re': _re, 'datetime': _dt, 'math': _math, 'decimal': _decimal, 'unicodedata': _unicodedata}
 import os as _os_mod      # noqa: E402
 import stat as _stat_mod  # noqa: E402
 import errno as _errno_mod  # noqa: E402
@@ -1315,6 +1316,11 @@ class Interp:
             return _Suppress(())        # enters, runs the body, swallows nothing
         if ref in ('ext:copy.copy', 'ext:copy.deepcopy') and ref not in self.call_models and len(args) == 1:
             return _copy_value(self, args[0], deep=ref.endswith('deepcopy'), memo={})
+        if ref == 'ext:collections.Counter' and ref not in self.call_models and len(args) <= 1 and not kwargs:
+            items_ = list(self._nt_seq(args[0])) if args else []
+            if any(isinstance(x_, (Opaque, Ref)) for x_ in items_):
+                raise Unmodelled('collections.Counter over symbolic items')
+            return _CounterModel(self, items_)
         if ref == 'ext:collections.defaultdict' and ref not in self.call_models and len(args) <= 1 and not kwargs:
             import collections as _collections
             fac_ = args[0] if args else None
@@ -3189,6 +3195,44 @@ class _LruFactory(PyModel):
 
     def __call__(self, f):
         return self.make(f)
+
+
+class _CounterModel(PyModel):
+    """collections.Counter(iterable): items grouped the way a dict groups them - by __hash__ and __eq__ of the FIRST item of each
+    group (abstract instances through their class's own methods), in first-seen order."""
+
+    def __init__(self, interp, items):
+        self.groups = []          # [first object, count]
+        table = {}
+        for x in items:
+            k = _RecKey(interp, x) if isinstance(x, Rec) and isinstance(x.f.get('cls'), str) else x
+            try:
+                slot = table.get(k)
+            except TypeError:
+                raise ExcRaised(Ref('builtin:TypeError'))
+            if slot is None:
+                slot = table[k] = [x, 0]
+                self.groups.append(slot)
+            slot[1] += 1
+
+    def items(self):
+        return [(g[0], g[1]) for g in self.groups]
+
+    def keys(self):
+        return [g[0] for g in self.groups]
+
+    def values(self):
+        return [g[1] for g in self.groups]
+
+    def __iter__(self):
+        return iter(self.keys())
+
+    def __len__(self):
+        return len(self.groups)
+
+    def most_common(self, n=None):
+        out = sorted(self.items(), key=lambda kv: -kv[1])
+        return out if n is None else out[:n]
 
 
 class _RecKey:
